@@ -216,11 +216,18 @@ func (lex *Lexer) Reset() {
 // A final atom, operator or line comment that is not followed by a
 // delimiter is still pending in the lexer at that point: emit it, as
 // if a newline followed, so that the last token of a text is not lost.
-// An unterminated string literal means the text is unfinished.
+// An unterminated string or character literal means the text is
+// unfinished.
 func (lex *Lexer) finishText() (flushed bool, needMore bool, err error) {
 	switch lex.state {
-	case LexerStrLit, LexerStrEscaped:
+	case LexerStrLit, LexerStrEscaped, LexerRuneLit, LexerRuneEscaped:
 		return false, true, nil
+	case LexerUnquote:
+		// a '~' whose next rune has not arrived: it is not going
+		// to be '~@', so it is the unquote operator.
+		lex.AppendToken(lex.Token(TokenTilde, ""))
+		lex.state = LexerNormal
+		return true, false, nil
 	case LexerNormal:
 		if lex.buffer.Len() == 0 {
 			return false, false, nil
